@@ -297,7 +297,18 @@ structure BuildResult where
   grantIndex : Option Nat := none
   deriving Repr, Inhabited
 
-def build (fc : FC) (cfg : Config) : R BuildResult := do
+/-- the six support files for a namespace prefix (`SupportFiles.as_list()`) -/
+def supportFiles (pfx : Option Ids) : List File := Kind.all.map (fun k => createHeader k pfx)
+
+structure ShellFiles where
+  hh : File
+  cc : File
+  ir : ShellIR
+  allPorts : List (Port × InterfaceD)
+  grantIndex : Option Nat
+
+/-- everything `Builder.build` does except collecting the result list -/
+def buildShell (fc : FC) (cfg : Config) : R ShellFiles := do
   -- prechecks
   let found := findFqn fc cfg.encapsulee
   if found.isEmpty then adv else
@@ -307,7 +318,6 @@ def build (fc : FC) (cfg : Config) : R BuildResult := do
   let orig := getBasename cfg.dezyneFilename
   let shellName := orig ++ cfg.suffix
   if shellName.isEmpty then .error (.lib .CppGenError) else      -- Struct('') is refused
-  let sfs := Kind.all.map (fun k => createHeader k cfg.pfx)
   let sfns := (distillateNs cfg.pfx).1
   let fileOf := fun (k : Kind) => (createHeader k cfg.pfx).filename
   let pp ← de.provides.mapM (fun d => createCppPortItf d shellName sfns)
@@ -365,7 +375,13 @@ def build (fc : FC) (cfg : Config) : R BuildResult := do
   let ir : ShellIR :=
     { structName := shellName, ns := scope, sfns, origin := cfg.origin, provides := pp, requires := rp,
       mil := ctor.mil, ctorAssigns := assigns, initPort := inits, finalConstruct := finalStmts }
-  pure { files := [hh, cc] ++ sfs, ir, allPorts := de.allPorts,
+  pure { hh, cc, ir, allPorts := de.allPorts,
          grantIndex := (de.provides.findSome? (·.mc)).map (·.grantIndex) }
+
+/-- `Builder.build(cfg)`: shell header, shell source and the six support files -/
+def build (fc : FC) (cfg : Config) : R BuildResult := do
+  let s ← buildShell fc cfg
+  pure { files := [s.hh, s.cc] ++ supportFiles cfg.pfx, ir := s.ir, allPorts := s.allPorts,
+         grantIndex := s.grantIndex }
 
 end Shell
